@@ -4,6 +4,7 @@ reg(Prop('C10', [
     Stream('c10.seq', 1, 100000, 'spec', exhaustive='every history of length <= 3 (thorough: <= 4) over a 24-symbol alphabet of reader calls on a fixed 5-byte section'),
     Stream('c10.ops', 40000, 1500000, 'spec'),
     Stream('c10.utf8', 5000, 500000, 'spec', exhaustive='every byte string of length <= 2; 17x8x4(x4) boundary grid of 3/4-byte sequences'),
+    Stream('c10.parse', 30000, 900000, 'oracle'),
 ], level='proof (partial)', clauses=[], design_ref='§5 C10',
     level_text='placeholder',
     level_note='placeholder',
